@@ -62,6 +62,7 @@ type CfgNbr struct {
 	RRClient *bool    `json:"rr_client,omitempty"`
 	Disabled bool     `json:"disabled,omitempty"`
 	IPv4     *CfgAF   `json:"ipv4,omitempty"`
+	IPv6     *CfgAF   `json:"ipv6,omitempty"` // a second (non-native) address family on an IPv4 neighbour
 	AdvMP    bool     `json:"adv_mp,omitempty"`
 }
 
@@ -119,8 +120,10 @@ func yamlList(xs []string) string {
 	return "[" + strings.Join(q, ", ") + "]"
 }
 
-func (af *CfgAF) yaml(sb *strings.Builder, ind string) {
-	fmt.Fprintf(sb, "%sipv4:\n%s  add_path:\n%s    receive: %v\n", ind, ind, ind, af.Recv)
+func (af *CfgAF) yaml(sb *strings.Builder, ind string) { af.yamlFam(sb, ind, "ipv4") }
+
+func (af *CfgAF) yamlFam(sb *strings.Builder, ind, fam string) {
+	fmt.Fprintf(sb, "%s%s:\n%s  add_path:\n%s    receive: %v\n", ind, fam, ind, ind, af.Recv)
 	if af.Send {
 		fmt.Fprintf(sb, "%s    send:\n%s      multipath: %v\n%s      path_count: %d\n", ind, ind, af.Multipath, ind, af.PathCount)
 	}
@@ -200,6 +203,9 @@ func (c CfgSpec) YAML() string {
 			if n.IPv4 != nil {
 				n.IPv4.yaml(&sb, "            ")
 			}
+			if n.IPv6 != nil {
+				n.IPv6.yamlFam(&sb, "            ", "ipv6")
+			}
 		}
 	}
 	return sb.String()
@@ -262,6 +268,9 @@ func genC36(seed uint64) *Plan {
 		if r.Chance(0.3) {
 			n.Import = []string{pick(r, cfgPolicyNames[:4])}
 		}
+		if r.Chance(0.15) {
+			n.IPv6 = &CfgAF{}
+		}
 		gi := r.Intn(ng)
 		base.Groups[gi].Neighbors = append(base.Groups[gi].Neighbors, n)
 	}
@@ -279,7 +288,14 @@ func genC36(seed uint64) *Plan {
 			}
 			ni := r.Intn(len(g.Neighbors))
 			n := &g.Neighbors[ni]
-			switch r.Intn(12) {
+			switch r.Intn(13) {
+			case 12:
+				// the IPv6 family is enabled on / removed from the (IPv4) neighbour
+				if n.IPv6 == nil {
+					n.IPv6 = &CfgAF{Recv: r.Chance(0.3)}
+				} else {
+					n.IPv6 = nil
+				}
 			case 0:
 				n.Hold = pick(r, []uint16{30, 60, 90, 180})
 			case 1:
